@@ -584,7 +584,10 @@ class Continuum:
         for i, units in enumerate(self._annotations.values()):
             sizes[i] = len(units)
 
-        disorders, possible_unitary_alignments = dissimilarity.valid_alignments(self)
+        true_disorders, possible_unitary_alignments = dissimilarity.valid_alignments(self)
+        # The solvers' tolerances are absolute : the program is written with costs relative to the largest disorder.
+        scale = np.max(true_disorders)
+        disorders = true_disorders / scale if scale > 0 else true_disorders
         # Definition of the integer linear program
         n = len(disorders)
         # Constraints matrix ("every unit must appear once and only once")
@@ -603,7 +606,7 @@ class Continuum:
         chosen_alignments_ids, = np.where(x.value > 0.9)
 
         chosen_alignments: np.ndarray = possible_unitary_alignments[chosen_alignments_ids]
-        alignments_disorders: np.ndarray = disorders[chosen_alignments_ids]
+        alignments_disorders: np.ndarray = true_disorders[chosen_alignments_ids]
 
         from .alignment import UnitaryAlignment, SoftAlignment
 
@@ -767,7 +770,10 @@ class Continuum:
         for i, units in enumerate(self._annotations.values()):
             sizes[i] = len(units)
 
-        disorders, possible_unitary_alignments = dissimilarity.valid_alignments(self)
+        true_disorders, possible_unitary_alignments = dissimilarity.valid_alignments(self)
+        # The solvers' tolerances are absolute : the program is written with costs relative to the largest disorder.
+        scale = np.max(true_disorders)
+        disorders = true_disorders / scale if scale > 0 else true_disorders
         # Definition of the integer linear program
         n = len(disorders)
         # Constraints matrix ("every unit must appear once and only once")
@@ -787,7 +793,7 @@ class Continuum:
         chosen_alignments_ids, = np.where(x.value > 0.9)
 
         chosen_alignments: np.ndarray = possible_unitary_alignments[chosen_alignments_ids]
-        alignments_disorders: np.ndarray = disorders[chosen_alignments_ids]
+        alignments_disorders: np.ndarray = true_disorders[chosen_alignments_ids]
 
         from .alignment import UnitaryAlignment, Alignment
 
